@@ -574,6 +574,15 @@ Fixpoint all2 {A B} (f : A -> B -> bool) (l1 : list A) (l2 : list B) : bool :=
     declared, no duplicate attribute). *)
 Record observation := { ob_status : N; ob_responses : list response; ob_strict : bool }.
 
+(** The model's own answer as an observation (its body is a tree, which the
+    strict reader accepts by construction). *)
+Definition observe (m : res (list response)) : observation :=
+  match m with
+  | Ok l => {| ob_status := 207; ob_responses := l; ob_strict := true |}
+  | Err c => {| ob_status := c; ob_responses := []; ob_strict := true |}
+  | Panic => {| ob_status := 500; ob_responses := []; ob_strict := false |}
+  end.
+
 (** Statuses are compared by class: 207, 400 (both constrained by the
     property), any other refusal (which one is C13's and C01's business). *)
 Definition status_class (c : N) : N :=
